@@ -952,4 +952,193 @@ theorem fmtAlias_quote (a : Alias) (hw : a.wf = true) : ∃ s, fmtAlias a = '\''
     cases ty <;> simp [printAlias, aliasLhs]
   · exact ⟨_, by rw [h]; simp [brokenAlias, aliasLhs]; rfl⟩
 
+/-! ### 7. Which layout: the group breaks exactly when the flat line exceeds 100 columns -/
+
+section
+variable (R : Int) (i : Nat) (m : Mode) (loc rest : List Frame)
+
+theorem fl_nil (h0 : ¬ R < 0) : fitsLoop R (⟨i, m, .nil⟩ :: loc) rest = fitsLoop R loc rest :=
+  fitsLoop_docNil R (⟨i, m, .nil⟩ :: loc) rest loc rest ⟨i, m, .nil⟩ h0 rfl rfl
+theorem fl_text (s : List Char) (h0 : ¬ R < 0) :
+    fitsLoop R (⟨i, m, .text s⟩ :: loc) rest = fitsLoop (R - (s.length : Int)) loc rest :=
+  fitsLoop_text R (⟨i, m, .text s⟩ :: loc) rest loc rest ⟨i, m, .text s⟩ h0 rfl s rfl
+theorem fl_line_flat (h0 : ¬ R < 0) :
+    fitsLoop R (⟨i, .flat, .line⟩ :: loc) rest = fitsLoop (R - 1) loc rest :=
+  fitsLoop_line_flat R (⟨i, .flat, .line⟩ :: loc) rest loc rest ⟨i, .flat, .line⟩ h0 rfl rfl rfl
+theorem fl_ifBreak_flat (b fl : Doc) (h0 : ¬ R < 0) :
+    fitsLoop R (⟨i, .flat, .ifBreak b fl⟩ :: loc) rest = fitsLoop R (⟨i, .flat, fl⟩ :: loc) rest :=
+  fitsLoop_ifBreak_flat R (⟨i, .flat, .ifBreak b fl⟩ :: loc) rest loc rest ⟨i, .flat, .ifBreak b fl⟩ h0 rfl
+    b fl rfl rfl
+theorem fl_nest (n : Nat) (d : Doc) (h0 : ¬ R < 0) :
+    fitsLoop R (⟨i, m, .nest n d⟩ :: loc) rest = fitsLoop R (⟨i + n, m, d⟩ :: loc) rest :=
+  fitsLoop_nest R (⟨i, m, .nest n d⟩ :: loc) rest loc rest ⟨i, m, .nest n d⟩ h0 rfl n d rfl
+theorem fl_concat (ds : List Doc) (h0 : ¬ R < 0) :
+    fitsLoop R (⟨i, m, .concat ds⟩ :: loc) rest = fitsLoop R (mkFrames i m ds ++ loc) rest :=
+  fitsLoop_concat R (⟨i, m, .concat ds⟩ :: loc) rest loc rest ⟨i, m, .concat ds⟩ h0 rfl ds rfl
+end
+
+/-- the width of the members on the flat line: a space, `| ` except before the first, the member -/
+def membersWidth : Bool → List Ty → Nat
+  | _, [] => 0
+  | first, t :: rest =>
+    1 + (if first then 0 else 2) + (printMember t).length + membersWidth false rest
+
+theorem fits_end (R : Int) : fitsLoop R [] [⟨0, .brk, .nil⟩] = decide ((0 : Int) ≤ R) := by
+  by_cases h0 : R < 0
+  · rw [fitsLoop_neg R _ _ h0]; simp; omega
+  · rw [fitsLoop_docNil R [] [⟨0, .brk, .nil⟩] [] [] ⟨0, .brk, .nil⟩ h0 rfl rfl,
+      fitsLoop_none R [] [] h0 rfl]
+    simp; omega
+
+/-- `fits` on the members: true exactly when their flat width is within the remaining columns -/
+theorem fits_parts : ∀ (ts : List Ty) (first : Bool) (R : Int),
+    fitsLoop R (mkFrames 2 .flat (unionAliasParts first ts)) [⟨0, .brk, .nil⟩] =
+      decide ((membersWidth first ts : Int) ≤ R) := by
+  intro ts
+  induction ts with
+  | nil =>
+    intro first R
+    simp only [unionAliasParts, mkFrames, membersWidth]
+    exact fits_end R
+  | cons t rest ih =>
+    intro first R
+    have hneg : ∀ {R' : Int} {X : Prop} [Decidable X], R' < 0 → (X → 0 ≤ R') →
+        ∀ loc, fitsLoop R' loc [⟨0, .brk, .nil⟩] = decide X := by
+      intro R' X _ h hx loc
+      rw [fitsLoop_neg R' _ _ h]
+      simp only [Bool.false_eq, decide_eq_false_iff_not]
+      intro x; have := hx x; omega
+    simp only [unionAliasParts, mkFrames, membersWidth]
+    by_cases h0 : R < 0
+    · exact hneg h0 (by intro h; omega) _
+    rw [fl_line_flat R 2 _ _ h0]
+    by_cases h1 : R - 1 < 0
+    · exact hneg h1 (by intro h; omega) _
+    cases first with
+    | true =>
+      simp only [if_true]
+      rw [fl_ifBreak_flat (R - 1) 2 _ _ _ _ h1, fl_nil (R - 1) 2 .flat _ _ h1,
+        fl_text (R - 1) 2 .flat _ _ _ h1, ih false]
+      simp only [decide_eq_decide]
+      omega
+    | false =>
+      simp only [Bool.false_eq_true, if_false]
+      rw [fl_text (R - 1) 2 .flat _ _ _ h1]
+      by_cases h2 : R - 1 - ((['|', ' '] : List Char).length : Int) < 0
+      · exact hneg h2 (by intro h; simp only [List.length_cons, List.length_nil] at h2 ⊢; omega) _
+      rw [fl_text _ 2 .flat _ _ _ h2, ih false]
+      simp only [decide_eq_decide, List.length_cons, List.length_nil]
+      omega
+
+theorem forcesBreak_parts : ∀ (ts : List Ty) (first : Bool),
+    forcesBreakAny (unionAliasParts first ts) = false := by
+  intro ts
+  induction ts with
+  | nil => intro _; rfl
+  | cons t rest ih =>
+    intro first
+    cases first <;> simp [unionAliasParts, forcesBreakAny, forcesBreak, ih]
+
+/-- the mode the group of `union_alias_doc` gets -/
+def unionMode (name : Option Str) (ps : List Str) (ts : List Ty) : Mode :=
+  if (aliasLhs name ps).length + membersWidth true ts ≤ 100 then .flat else .brk
+
+theorem printPieces_union_mode (name : Option Str) (ps : List Str) (ts : List Ty) (hne : ts ≠ []) :
+    printPieces (Doc.join .hardline [aliasDoc ⟨name, ps, .union ts⟩]) 100 =
+      Piece.atom (aliasLhs name ps) :: memberPieces (unionMode name ps ts) true ts := by
+  have hfb : forcesBreak (.nest 2 (.concat (unionAliasParts true ts))) = false := by
+    simp [forcesBreak, forcesBreak_parts]
+  have hW : 1 ≤ membersWidth true ts := by
+    cases ts with
+    | nil => exact absurd rfl hne
+    | cons t rest => simp only [membersWidth]; omega
+  have hfits : fits (100 - (0 + (aliasLhs name ps).length)) 0
+      (.nest 2 (.concat (unionAliasParts true ts))) [⟨0, .brk, .nil⟩] =
+      decide ((aliasLhs name ps).length + membersWidth true ts ≤ 100) := by
+    unfold fits
+    rw [toIsize_small _ (by omega)]
+    have h0 : ¬ (((100 - (0 + (aliasLhs name ps).length) : Nat) : Int) < 0) := by omega
+    rw [fl_nest _ 0 .flat _ _ _ _ h0, fl_concat _ (0 + 2) .flat _ _ _ h0]
+    simp only [List.append_nil, Nat.zero_add]
+    rw [fits_parts]
+    simp only [decide_eq_decide]
+    omega
+  simp only [printPieces, Doc.join, Doc.joinList, aliasDoc, unionAliasDoc, Doc.mkGroup, pl_concat,
+    mkFrames, List.cons_append, List.nil_append, pl_nil, pl_text]
+  rw [printLoop_group 100 _ _ _ [] _ _ rfl, hfb, hfits]
+  simp only [Bool.false_or]
+  rw [pl_nest, pl_concat]
+  unfold unionMode
+  by_cases hle : (aliasLhs name ps).length + membersWidth true ts ≤ 100
+  · simp only [hle, decide_true, Bool.not_true, Bool.false_eq_true, if_false, if_true, Nat.zero_add]
+    rw [parts_pieces 100 .flat ts true _]
+  · simp only [hle, decide_false, Bool.not_false, if_true, if_false, Nat.zero_add]
+    rw [parts_pieces 100 .brk ts true _]
+
+theorem length_printAlias_union (name : Option Str) (ps : List Str) (m : Ty) (ms : List Ty) :
+    (printAlias ⟨name, ps, .union (m :: ms)⟩).length =
+      (aliasLhs name ps).length + membersWidth true (m :: ms) := by
+  have h : ∀ ms : List Ty, ((ms.map ([' ', '|', ' '] ++ printMember ·)).flatten).length =
+      membersWidth false ms := by
+    intro ms
+    induction ms with
+    | nil => rfl
+    | cons x xs ih =>
+      simp only [List.map_cons, List.flatten_cons, List.length_append, List.length_cons,
+        List.length_nil, membersWidth, Bool.false_eq_true, if_false]
+      rw [ih] <;> omega
+  simp only [printAlias, printMembers, printMembersL_eq, List.map_cons]
+  rw [sepBy_cons, List.map_map]
+  simp only [List.length_append, List.length_cons, membersWidth, if_true]
+  have := h ms
+  simp only [Function.comp_def] at this ⊢
+  rw [this]; omega
+
+/-- **the layout is decided by the length of the flat line**: `format_program` writes the flat line
+    unless the right-hand side is a union and the flat line is longer than 100 characters; then every
+    member gets its own line. -/
+theorem fmtAlias_decided (a : Alias) (hw : a.wf = true) :
+    fmtAlias a =
+      (match a.ty with
+       | .union ts =>
+         if (printAlias a).length ≤ 100 then printAlias a else brokenAlias a.name a.params ts
+       | _ => printAlias a) ++ ['\n'] := by
+  obtain ⟨name, ps, ty⟩ := a
+  by_cases hu : ∃ ts, ty = .union ts
+  · obtain ⟨ts, rfl⟩ := hu
+    have hw' := hw
+    simp only [Alias.wf, Bool.and_eq_true] at hw
+    have hn : ∀ n, name = some n → isIdentStr n = true := by
+      intro n e; subst e; exact hw.1.1
+    have hlhs := goodS_lhs name ps hn hw.1.2
+    have hwt : 2 ≤ ts.length ∧ Ty.wfList ts = true := by
+      simpa [Ty.wf] using hw.2
+    cases ts with
+    | nil => simp at hwt
+    | cons t ts =>
+      have hmem : ∀ x ∈ t :: ts, GoodS (printMember x) = true := fun x hx =>
+        goodS_memberWrap x (goodS_printTys (t :: ts) hwt.2 x hx)
+      have hm := printPieces_union_mode name ps (t :: ts) (by simp)
+      have htm := tidy_members (unionMode name ps (t :: ts)) (t :: ts) true hmem
+      obtain ⟨p1, p2, p3⟩ := passes_of_tidy (P := Piece.atom (aliasLhs name ps) ::
+          memberPieces (unionMode name ps (t :: ts)) true (t :: ts))
+        (by simp only [explode]; exact tidy_good _ hlhs false _ htm.1)
+        (by simp only [explode]; rw [nulFree_chars _ (goodS_ok hlhs)]; exact htm.2)
+      have hfmt : fmtAlias ⟨name, ps, .union (t :: ts)⟩ =
+          renderPieces (Piece.atom (aliasLhs name ps) ::
+            memberPieces (unionMode name ps (t :: ts)) true (t :: ts)) ++ ['\n'] := by
+        unfold fmtAlias QM.Text.print
+        rw [hm, p1, p2, p3]
+      rw [hfmt, length_printAlias_union]
+      unfold unionMode
+      by_cases hle : (aliasLhs name ps).length + membersWidth true (t :: ts) ≤ 100
+      · simp only [hle, if_true, renderPieces, Piece.render, render_members_flat, printAlias]
+      · simp only [hle, if_false, renderPieces, Piece.render, render_members_brk, brokenAlias]
+  · rcases fmtAlias_text ⟨name, ps, ty⟩ hw with h | ⟨ts, hty, _⟩
+    · rw [h]
+      cases ty with
+      | union ts => exact absurd ⟨ts, rfl⟩ hu
+      | _ => rfl
+    · exact absurd ⟨ts, hty⟩ hu
+
 end QM.Parse
